@@ -17,7 +17,9 @@ def gen(args):
         p = int(rng.integers(1, 3))
         Yi = P.centred_lattice(rng, n, p, 4)
         if rng.random() < 0.15:
-            Yi[:, 0] = Xi[:, int(rng.integers(m))]          # a target that is exactly one of the features
+            jf = int(rng.integers(m))
+            if np.any(Xi[:, jf]):
+                Yi[:, 0] = Xi[:, jf]                     # a target that is exactly one of the (non-empty) features
         if p == 2 and rng.random() < 0.2:
             Yi[:, 1] = Yi[:, 0]                              # the same property given twice (it counts twice in the objective)
         y1d = p == 1 and rng.random() < 0.6
